@@ -54,6 +54,10 @@ HAS_STATE = ('CERTIFICATE', 'SYMMETRIC_KEY', 'PUBLIC_KEY', 'PRIVATE_KEY',
 IS_KEY = ('SYMMETRIC_KEY', 'PUBLIC_KEY', 'PRIVATE_KEY', 'SPLIT_KEY')
 
 
+UNSTORED = ['Activation Date', 'Deactivation Date', 'Last Change Date',
+            'Contact Information', 'Fresh', 'Lease Time']
+
+
 def matches(o, f):
     n, v = f['n'], f['v']
     t = o['otype']
@@ -82,7 +86,7 @@ def matches(o, f):
         return o['uid'] == v
     if n == 'Sensitive':
         return bool(o['sensitive']) == bool(v)
-    if n[:2] in ('x-', 'y-'):
+    if n[:2] in ('x-', 'y-') or n in UNSTORED:
         return False
     raise ValueError(n)
 
@@ -127,7 +131,16 @@ def gen_filters(r, ctx_objs_guess, ver):
         r.shuffle(picked)
     else:
         picked = r.sample(names, k)
+    if r.random() < 0.08:
+        # an attribute of the specification the server does not store on
+        # any object: no stored object has it, so nothing matches
+        picked = picked + [r.choice(UNSTORED)]
     for n in picked:
+        if n in UNSTORED:
+            fl.append(gen.A(n, {'Contact Information': 'someone',
+                                'Fresh': True, 'Lease Time': 3600}.get(
+                                    n, 1500000000)))
+            continue
         if n == 'x-purpose':
             fl.append(gen.A(r.choice(['x-purpose', 'y-owner', 'x-1']),
                             'backup', k='text'))
@@ -404,8 +417,18 @@ def execute(plan):
                             'groups') for u in miss):
                     groups_note = 'requester-has-groups-policy-has-none'
             if unknown:
+                why_ = None
+                stored_fl = [f for f in fl if f['n'] not in UNSTORED]
+                if len(stored_fl) < len(fl):
+                    # open known finding: a filter on an attribute the
+                    # server does not store is ignored. Only when ignoring
+                    # exactly those filters explains every extra object.
+                    wo = set(o['uid'] for o in expected(
+                        view, store, a['cn'], a.get('groups'), stored_fl))
+                    if set(unknown) <= wo:
+                        why_ = 'filter-on-attribute-the-server-does-not-store'
                 flag('locate-returned-unexpected-object',
-                     why=None, got=got, expected=sorted(exp_ids),
+                     why=why_, got=got, expected=sorted(exp_ids),
                      filters=fl, identity=[a['cn'], a.get('groups')])
                 continue
             if groups_note is None and any(f['n'] == 'Sensitive'
@@ -478,6 +501,11 @@ def directed(tier):
                                'items': [dict({'op': 'Locate', 'attrs': fl},
                                               **kw)]}
     return [
+        # open known finding: filter on an attribute the server does not
+        # store
+        {'actors': [{'cn': 'user0'}, {'cn': 'user1'}, {'cn': 'user2'}],
+         'policies': {}, 'seed': 5,
+         'steps': [key, loc(0, [gen.A('Activation Date', 1500000000)])]},
         {'actors': [{'cn': 'user0'}, {'cn': 'user1'}, {'cn': 'user2'}],
          'policies': {}, 'seed': 3,
          'steps': [key, cert,
